@@ -206,6 +206,16 @@ thread_local! {
     static CALL_ACQ: std::cell::Cell<u64> = const { std::cell::Cell::new(0) };
 }
 
+/// When enabled, the Debug rendering of the instance state is recorded at every release of the
+/// write lock, i.e. exactly the states another thread could observe between two acquisitions.
+pub static RECORD_WRITE_RELEASES: std::sync::atomic::AtomicBool = std::sync::atomic::AtomicBool::new(false);
+thread_local! {
+    pub static WRITE_RELEASES: RefCell<Vec<String>> = const { RefCell::new(Vec::new()) };
+}
+pub fn take_write_releases() -> Vec<String> {
+    WRITE_RELEASES.with(|w| std::mem::take(&mut *w.borrow_mut()))
+}
+
 pub fn reset_call_acquisitions() {
     CALL_ACQ.with(|c| c.set(0));
 }
@@ -273,7 +283,12 @@ impl PtpInstanceStateMutex for MonMutex {
                 p.into_inner()
             }
         };
-        f(&mut guard)
+        let r = f(&mut guard);
+        if RECORD_WRITE_RELEASES.load(Ordering::Relaxed) {
+            let snap = format!("{:?}", *guard);
+            WRITE_RELEASES.with(|w| w.borrow_mut().push(snap));
+        }
+        r
     }
 }
 
